@@ -65,8 +65,15 @@ pub fn catalogue(w: &World, tier: &str, seed: u64, reps: usize) -> Vec<FaultCase
                     variants.push((Some(m.to), None));
                 }
                 // quick: later occurrences of early-protocol labels only for every other message
-                if !thorough && m.k > 1 {
+                if !thorough && m.k > 1 && !cfg.name.ends_with("-big") {
                     continue;
+                }
+                if cfg.name.ends_with("-big") {
+                    // two AND batches: only the checks of the LAST occurrence of each label (second batch)
+                    let last = msgs.iter().filter(|x| x.label == m.label && x.to == m.to).map(|x| x.k).max().unwrap_or(0);
+                    if m.k != last || m.k == 0 || m.label.starts_with("CO_OT") || m.label.starts_with("RNG") || m.label.starts_with("broadcast") {
+                        continue;
+                    }
                 }
                 let mut entries: Vec<(What, String)> = vec![];
                 match m.label.as_str() {
